@@ -304,6 +304,12 @@ pub fn build(
                 let Some(type_) = type_registry.resolve_grammar_type(scope, type_) else {
                     return Ok(None);
                 };
+                if type_.is_void_by_value() {
+                    anyhow::bail!(
+                        "parameter `{name}` of function `{}` is a `void` by value; `void` can only be used behind a pointer",
+                        function.name
+                    );
+                }
                 Argument::Field(name.0.clone(), type_)
             }
         });
@@ -311,6 +317,10 @@ pub fn build(
 
     let return_type = match &function.return_type {
         Some(t) => match type_registry.resolve_grammar_type(scope, t) {
+            Some(t) if t.is_void_by_value() => anyhow::bail!(
+                "function `{}` returns `void` by value; leave the return type out instead",
+                function.name
+            ),
             Some(t) => Some(t),
             None => return Ok(None),
         },
